@@ -7,7 +7,8 @@ ops (strings hex-encoded, `-` = empty):
   encdelta  <nodeid> <addr> <entries> <max> <id>,<addr>[/<key>,<value>,<version>,<internal>,<deleted>]* ...
       → `pkt=<hex of the packet> dec=<decoded value of that packet>` or `err` (header > max)
   decdigest <hex> | decdelta <hex>     → `dec=<decoded value>` (canonical packets only)
-  pkt <hex> | conn <hex>               malformed stream for the real handlers: implementation
+  local <max> <k>,<v>.. | pkt <hex> | conn <hex> | pipe <hex>
+                                       malformed stream for the real handlers: implementation
                                        only, both sides print `skip`
 -/
 namespace Piko.Driver.CodecEngine
@@ -90,6 +91,7 @@ def step (_ : Unit) : List String → Unit × String
     | none => ((), "bad-op")
   | "pkt" :: _ => ((), "skip")
   | "conn" :: _ => ((), "skip")
+  | "pipe" :: _ => ((), "skip")
   | "local" :: _ => ((), "skip")
   | _ => ((), "bad-op")
 
